@@ -87,7 +87,7 @@ Print Assumptions C28_random_complete.
 
 (* a whole TLS <= 1.2 ECDHE handshake: every part of the log is the projection of the messages sent *)
 Theorem C28_log_fields_are_wire_fields : forall ch sh certs k cpub nst a cl sl ka pt cpt,
-  hello_ok ch -> server_hello_ok sh ->
+  hello_ok ch -> server_hello_ok sh -> a_skx_rejected a = false ->
   ch_log_of ch = Some cl -> sh_log_of sh a = Some sl -> sl_selected_version sl = None ->
   Forall (fun c => blen c < 16777216) certs -> blen (flat_map enc_vec24 certs) < 16777216 ->
   ka_of_suite (sl_suite sl) = Some ka -> (ka = 1 \/ ka = 2) ->
